@@ -14,7 +14,8 @@ TInit == SInit /\ l = 1 /\ InitProgress
 (* a new execution, or the shared arena was reset (every container was reset with it) *)
 TReset == (IsEv("Reset") \/ IsEv("ArenaReset")) /\ str' = SEmpty /\ sst' = <<>>
 TOp == IsEv("Op") /\ SStep(Ev.op, Ev.r, Ev.st)
-TNext == TReset \/ TOp
+TNote == IsEv("Note") /\ UNCHANGED svars                   \* announcement of a call that may not return
+TNext == TReset \/ TOp \/ TNote
 TSpec == TInit /\ [][TNext]_tvars
 Progress == NoteProgress(l)
 TraceAccepted == Accepted(Len(T))
